@@ -124,6 +124,19 @@ def run_case(case) -> Result:
             raw = np.array(case["z"], dtype=float)
             pp = np.array(system.project_onto_cotangent_space(raw.copy(), state.copy()), dtype=float)
             on_bundle("project_onto_cotangent_space", q0, pp, "project_onto_cotangent_space")
+            # one state object re-used for a second start point: position re-assigned, momentum drawn / projected again
+            q1 = zoo.project_to_manifold(model.con, q0 + 0.3 * np.array(case["z"], dtype=float))
+            if q1 is not None and np.linalg.cond(model.con.jac(q1) @ Minv @ model.con.jac(q1).T) < 1e4:
+                reused = state.copy()
+                system.sample_momentum(reused, dyn.BasisRng(case["z"]))
+                system.h(reused)
+                reused.pos = q1.copy()
+                pm1 = np.array(system.sample_momentum(reused, dyn.BasisRng(case["z"])), dtype=float)
+                on_bundle("sample_momentum after re-assigning the position of a used state", q1, pm1,
+                          "sample_momentum[reused-state]")
+                pp1 = np.array(system.project_onto_cotangent_space(raw.copy(), reused), dtype=float)
+                on_bundle("project_onto_cotangent_space after re-assigning the position", q1, pp1,
+                          "project_onto_cotangent_space[reused-state]")
             # the correction is of Lagrange-multiplier form J' lambda
             J0 = model.con.jac(q0)
             lam, *_ = np.linalg.lstsq(J0.T, pp - raw, rcond=None)
